@@ -581,6 +581,7 @@ impl RawTree
 
 pub fn raw_tree(structured: StructSel, max_files: usize, p: RawParams) -> BoxedStrategy<RawTree>
 {
+    let valid_only = p.valid_only;
     structured
         .strategy()
         .prop_flat_map(move |st| {
@@ -594,12 +595,31 @@ pub fn raw_tree(structured: StructSel, max_files: usize, p: RawParams) -> BoxedS
             let rf = raw_file(&cfg, &p);
             (Just(cfg), vec(rf, 1..=max_files))
         })
-        .prop_flat_map(|(cfg, files)| (Just(cfg), Just(files), prop_oneof![3 => Just(false), 1 => Just(true)]))
-        .prop_map(|(cfg, files, alias_link)| RawTree {
-            cfg,
-            files,
-            lock: LockSpec::Absent,
-            alias_link,
+        .prop_flat_map(move |(cfg, files)| {
+            // one tree in four uses the lock file (so that an edit run has no ID-scanning first pass)
+            let lock = if valid_only
+            {
+                Just((Some(false), LockSpec::Absent)).boxed()
+            }
+            else
+            {
+                prop_oneof![
+                    6 => Just((Some(false), LockSpec::Absent)),
+                    1 => (1u32..100_000).prop_map(|n| (None, LockSpec::Valid(n))),
+                    1 => (1u32..100_000).prop_map(|n| (Some(true), LockSpec::Valid(n))),
+                ]
+                .boxed()
+            };
+            (Just(cfg), Just(files), prop_oneof![3 => Just(false), 1 => Just(true)], lock)
+        })
+        .prop_map(|(mut cfg, files, alias_link, (use_cache, lock))| {
+            cfg.use_cache = use_cache;
+            RawTree {
+                cfg,
+                files,
+                lock,
+                alias_link,
+            }
         })
         .boxed()
 }
